@@ -12,7 +12,7 @@ package gmars
 // slot(start, i, size): index of the i-th queued element in the circular buffer (an uninterpreted
 // function with a definitional axiom, so that quantifier triggers contain no arithmetic)
 //@ uf slot(start int, i int, size int) = (start + i) % size
-//@ pure pqInv(q *processQueue) = q != nil && len(q.queue) == q.size && q.size >= 1 && q.length <= q.size
+//@ pure pqInv(q *processQueue) = q != nil && len(q.queue) == q.size && q.size >= 1 && q.size <= 4294967296 && q.length <= q.size
 //@      && q.start < q.size && q.end < q.size && q.end == slot(q.start, q.length, q.size)
 //@ pure qLen(q *processQueue) = q.length
 //@ pure qAt(q *processQueue, i int) = q.queue[slot(q.start, i, q.size)]
@@ -329,3 +329,259 @@ package gmars
 //@   assert [C04] memOK(s) && s.mem == old(s.mem) && memWf(s) && IR == IR0 && IR0 == old(s.mem[PC]) && wfI(IR, s.m) && wfI(IRA, s.m) && wfI(IRB, s.m)
 //@   assert [C04] m == s.m && R == s.readLimit && W == s.writeLimit
 //@   assert [C01] funcOK(s) ==> IRA == ira && IRB == irb && WPB == wpb && RPA == rpa && RPB == rpb && rpa < m && wpb < m && rpb < m && (forall a :: 0 <= a && a < m ==> s.mem[a] == cB2[a])
+
+// ---------------------------------------------------------------------------
+// simulator data-structure invariant (C04): established by newReportSim, kept by every method
+
+//@ pure dataWf(d *WarriorData, m int) = d != nil && 0 <= d.Start && (forall k :: 0 <= k && k < len(d.Code) ==> wfI(d.Code[k], m))
+//@ pure wInv(s *reportSim, j int) = s.warriors[j] != nil && s.warriors[j].index == j && s.warriors[j].sim == s
+//@      && dataWf(s.warriors[j].data, s.m) && arr(s.warriors[j].data.Code) != arr(s.mem) && s.warriors[j].state <= WarriorDead
+//@      && (s.warriors[j].state == WarriorAlive ==> pqInv(s.warriors[j].pq) && s.warriors[j].pq.size == s.maxProcs
+//@            && s.warriors[j].pq.length >= 1 && qAllBelow(s.warriors[j].pq, s.m))
+//@ pure simInv(s *reportSim) = memOK(s) && s.m >= 3 && s.m <= 4294967296 && s.maxProcs <= 4294967296 && memWf(s) && s.readLimit >= 1 && s.writeLimit >= 1 && s.maxProcs >= 1 && s.maxCycles >= 1
+//@      && s.warriorCount == len(s.warriors) && s.warriorIndex == 0 && s.cycleCount <= s.maxCycles
+//@      && (forall j :: 0 <= j && j < s.warriorCount ==> wInv(s, j))
+//@      && (forall j, k :: 0 <= j && j < k && k < s.warriorCount && s.warriors[j].state == WarriorAlive && s.warriors[k].state == WarriorAlive
+//@            ==> s.warriors[j].pq != s.warriors[k].pq && arr(s.warriors[j].pq.queue) != arr(s.warriors[k].pq.queue))
+
+// ---------------------------------------------------------------------------
+// config.go, construction
+
+//@ pure validCfg(c SimulatorConfig) = c.CoreSize >= 3 && c.Processes >= 1 && c.ReadLimit >= 1 && c.WriteLimit >= 1 && c.Cycles >= 1
+//@      && c.Length <= c.CoreSize && c.Length + c.Distance <= c.CoreSize
+
+//@ func (SimulatorConfig).Validate
+//@   panics [C04]
+//@   modifies nothing
+//@   ensures [C04] result == nil ==> c.CoreSize >= 3 && c.Processes >= 1 && c.ReadLimit >= 1 && c.WriteLimit >= 1 && c.Cycles >= 1 && c.Length <= c.CoreSize
+
+//@ func newProcessQueue
+//@   panics [C04]
+//@   requires size >= 1 && size <= 4294967296
+//@   modifies nothing
+//@   ensures [C04] fresh(result) && fresh(arr(result.queue)) && pqInv(result) && result.size == size && result.length == 0 && result.start == 0 && result.end == 0
+//@   ensures [C04] forall j :: 0 <= j && j < size ==> result.queue[j] == 0
+
+// resource bound: configurations whose core size and process limit do not exceed 2^32 (C04 quantifies over fields <= 2^20)
+//@ pure cfgBounded(c SimulatorConfig) = c.CoreSize <= 4294967296 && c.Processes <= 4294967296
+//@ func newReportSim
+//@   panics [C04]
+//@   requires cfgBounded(config)
+//@   modifies nothing
+//@   ensures [C04] (result.1 == nil) != (result.0 == nil)
+//@   ensures [C04] result.1 == nil ==> fresh(result.0) && simInv(result.0) && result.0.warriorCount == 0 && result.0.cycleCount == 0 && result.0.warriorLivingCount == 0
+//@   ensures [C04] result.1 == nil ==> result.0.m == config.CoreSize && result.0.maxProcs == config.Processes && result.0.maxCycles == config.Cycles
+//@      && result.0.readLimit == config.ReadLimit && result.0.writeLimit == config.WriteLimit && result.0.legacy == (config.Mode == ICWS88)
+
+//@ func NewSimulator
+//@   panics [C04]
+//@   requires cfgBounded(config)
+//@   modifies nothing
+//@   ensures [C04] result.1 == nil ==> result.0 != nil && simInv(as(result.0, reportSim))
+
+//@ func NewReportingSimulator
+//@   panics [C04]
+//@   requires cfgBounded(config)
+//@   modifies nothing
+//@   ensures [C04] result.1 == nil ==> result.0 != nil && simInv(as(result.0, reportSim))
+
+// ---------------------------------------------------------------------------
+// simple queries
+
+//@ func (*reportSim).CoreSize
+//@   panics [C13]
+//@   requires s != nil
+//@   modifies nothing
+//@   ensures result == s.m
+
+//@ func (*reportSim).CycleCount
+//@   panics [C13]
+//@   requires s != nil
+//@   modifies nothing
+
+//@ func (*reportSim).MaxCycles
+//@   panics [C13]
+//@   requires s != nil
+//@   modifies nothing
+
+//@ func (*reportSim).WarriorCount
+//@   panics [C13]
+//@   requires s != nil
+//@   modifies nothing
+//@   ensures result == s.warriorCount
+
+//@ func (*reportSim).WarriorLivingCount
+//@   panics [C13]
+//@   requires s != nil
+//@   modifies nothing
+//@   ensures result == s.warriorLivingCount
+
+//@ func (*reportSim).GetMem
+//@   panics [C04][C13]
+//@   requires simInv(s)
+//@   modifies nothing
+//@   ensures [C13] result == s.mem[a % s.m]
+
+//@ func (*reportSim).GetWarrior
+//@   panics [C13]
+//@   requires simInv(s)
+//@   modifies nothing
+//@   ensures [C13] 0 <= i && i < s.warriorCount ==> result == s.warriors[i]
+//@   ensures [C13] !(0 <= i && i < s.warriorCount) ==> result == nil
+
+// ---------------------------------------------------------------------------
+// queue observers
+
+//@ func (*processQueue).get
+//@   panics [C04][C13]
+//@   requires pqInv(q)
+//@   modifies nothing
+//@   ensures n < q.size ==> result == qAt(q, n)
+
+//@ func (*processQueue).Next
+//@   panics [C04][C13]
+//@   requires pqInv(q)
+//@   modifies nothing
+//@   ensures [C13] (q.length == 0) == (result.1 != nil)
+//@   ensures [C13] q.length > 0 ==> result.0 == qAt(q, 0)
+
+//@ func (*processQueue).Values
+//@   panics [C04][C13]
+//@   requires pqInv(q)
+//@   modifies nothing
+//@   ensures [C13] len(result) == q.length && (forall i :: 0 <= i && i < q.length ==> result[i] == qAt(q, i))
+//@   loop 1
+//@     invariant i <= q.length && len(dat) == q.length && fresh(arr(dat)) && off(dat) == 0
+//@     invariant forall k :: 0 <= k && k < i ==> dat[k] == qAt(q, k)
+//@     decreases q.length - i
+
+// ---------------------------------------------------------------------------
+// warriors
+
+//@ func (*WarriorData).Copy
+//@   panics [C13][C14]
+//@   requires w != nil
+//@   modifies nothing
+//@   ensures [C14] fresh(result) && fresh(arr(result.Code)) && off(result.Code) == 0 && len(result.Code) == len(w.Code)
+//@   ensures [C14] result.Start == w.Start && result.Name == w.Name && result.Author == w.Author && result.Strategy == w.Strategy
+//@   ensures [C14] forall k :: 0 <= k && k < len(w.Code) ==> result.Code[k] == w.Code[k]
+
+//@ func (*reportSim).addWarrior
+//@   panics [C04][C13]
+//@   requires simInv(s) && dataWf(data, s.m)
+//@   modifies s.warriors, s.warriorCount
+//@   ensures [C04] simInv(s) && s.warriorCount == old(s.warriorCount) + 1 && result.1 == nil && result.0 == s.warriors[old(s.warriorCount)]
+//@   ensures [C13] fresh(result.0) && result.0.state == WarriorAdded && fresh(result.0.data)
+//@   ensures [C13] forall j :: 0 <= j && j < old(s.warriorCount) ==> s.warriors[j] == old(s.warriors[j])
+
+//@ func (*reportSim).AddWarrior
+//@   panics [C04][C13]
+//@   requires simInv(s) && dataWf(data, s.m)
+//@   modifies s.warriors, s.warriorCount
+//@   ensures [C04] simInv(s) && s.warriorCount == old(s.warriorCount) + 1 && result.1 == nil
+
+//@ func (*reportSim).spawnWarrior
+//@   panics [C04][C13]
+//@   requires simInv(s)
+//@   modifies s.mem[*], s.warriors[*].pq, s.warriors[*].state, s.warriorLivingCount
+//@   ensures [C04] simInv(s)
+//@   ensures [C13] !(0 <= wi && wi < s.warriorCount) ==> result != nil && memSame(s)
+//@   ensures [C13] 0 <= wi && wi < s.warriorCount && old(s.warriors[wi].state) == WarriorAlive ==> result != nil && memSame(s)
+//@   ensures [C13] result == nil ==> s.warriors[wi].state == WarriorAlive && s.warriors[wi].pq.length == 1
+//@   ensures [C13] result == nil && startOffset + s.warriors[wi].data.Start < 18446744073709551616 ==> qAt(s.warriors[wi].pq, 0) == (startOffset + s.warriors[wi].data.Start) % s.m
+//@   loop 1
+//@     invariant i <= len(w.data.Code) && memWf(s)
+//@     decreases len(w.data.Code) - i
+
+//@ func (*reportSim).SpawnWarrior
+//@   panics [C04][C13]
+//@   requires simInv(s)
+//@   modifies s.mem[*], s.warriors[*].pq, s.warriors[*].state, s.warriorLivingCount
+//@   ensures [C04] simInv(s)
+
+//@ func (*reportSim).Reset
+//@   panics [C04][C13]
+//@   requires simInv(s)
+//@   modifies s.mem, s.cycleCount, s.warriorLivingCount, s.warriors[*].state
+//@   ensures [C04] simInv(s)
+//@   ensures [C13] s.cycleCount == 0 && s.warriorLivingCount == 0 && (forall a :: 0 <= a && a < s.m ==> s.mem[a] == old(s.mem[a]){Op: 0}{OpMode: 0}{A: 0}{AMode: 0}{B: 0}{BMode: 0})
+//@   ensures [C13] forall j :: 0 <= j && j < s.warriorCount ==> s.warriors[j].state == WarriorAdded
+//@   loop 1
+//@     invariant forall j :: 0 <= j && j < len(s.warriors) ==> (s.warriors[j].state == old(s.warriors[j].state) || s.warriors[j].state == WarriorAdded)
+//@     invariant forall j :: 0 <= j && j <= rangeindex ==> s.warriors[j].state == WarriorAdded
+//@     invariant 0 - 1 <= rangeindex && rangeindex < len(s.warriors)
+//@     decreases len(s.warriors) - rangeindex
+
+//@ func (*warrior).Alive
+//@   panics [C13]
+//@   requires w != nil
+//@   modifies nothing
+//@   ensures result == (w.state == WarriorAlive)
+
+//@ func (*warrior).Name
+//@   panics [C13]
+//@   requires w != nil && w.data != nil
+//@   modifies nothing
+
+//@ func (*warrior).Author
+//@   panics [C13]
+//@   requires w != nil && w.data != nil
+//@   modifies nothing
+
+//@ func (*warrior).Length
+//@   panics [C13]
+//@   requires w != nil && w.data != nil
+//@   modifies nothing
+//@   ensures result == len(w.data.Code)
+
+//@ func (*warrior).Queue
+//@   panics [C13]
+//@   requires w != nil && (w.pq != nil ==> pqInv(w.pq))
+//@   modifies nothing
+
+//@ func (*warrior).NextPC
+//@   panics [C13]
+//@   requires w != nil && (w.pq != nil ==> pqInv(w.pq))
+//@   modifies nothing
+//@   ensures [C13] w.pq == nil ==> result.1 != nil
+
+//@ func (*reportSim).addressSigned
+//@   panics [C13][C16]
+//@   requires s != nil
+//@   modifies nothing
+//@   ensures [C16] a < s.m && s.m <= 4294967296 ==> (result % s.m == a || result + s.m == a) && 0 - (s.m / 2) - 1 <= result && result <= s.m / 2
+
+// ---------------------------------------------------------------------------
+// scheduling
+
+//@ pure cycleGuard(s *reportSim) = s.cycleCount >= s.maxCycles || s.warriorLivingCount < 1
+
+//@ func (*reportSim).RunCycle
+//@   panics [C04][C13]
+//@   requires simInv(s)
+//@   modifies s.mem[*], s.cycleCount, s.warriorIndex, s.warriorLivingCount, s.warriors[*].state
+//@   modifies s.warriors[*].pq.queue[*], s.warriors[*].pq.start, s.warriors[*].pq.end, s.warriors[*].pq.length
+//@   ensures [C04] simInv(s)
+//@   ensures [C02][C13] old(cycleGuard(s)) ==> result == 0 && memSame(s) && s.cycleCount == old(s.cycleCount) && s.warriorLivingCount == old(s.warriorLivingCount)
+//@   ensures [C02] !old(cycleGuard(s)) ==> (s.cycleCount == old(s.cycleCount) + 1 && result == s.warriorLivingCount)
+//@      || (s.cycleCount == old(s.cycleCount) && s.warriorCount > 1 && result == 1 && s.warriorLivingCount == 1)
+//@   loop 1
+//@     invariant simInv(s) && 0 <= i && i <= s.warriorCount
+//@     decreases s.warriorCount - i
+
+//@ func (*reportSim).Run
+//@   panics [C04][C13]
+//@   requires simInv(s)
+//@   modifies s.mem[*], s.cycleCount, s.warriorIndex, s.warriorLivingCount, s.warriors[*].state
+//@   modifies s.warriors[*].pq.queue[*], s.warriors[*].pq.start, s.warriors[*].pq.end, s.warriors[*].pq.length
+//@   ensures [C04] simInv(s)
+//@   ensures [C02][C13] s.warriorCount == 0 ==> len(result) == 0
+//@   ensures [C02][C13] s.warriorCount > 0 ==> len(result) == s.warriorCount && (forall j :: 0 <= j && j < s.warriorCount ==> result[j] == (s.warriors[j].state == WarriorAlive))
+//@   loop 1
+//@     invariant simInv(s) && nWarriors == s.warriorCount && nWarriors >= 1
+//@     decreases [C13] s.maxCycles - s.cycleCount
+//@   loop 2
+//@     invariant simInv(s) && nWarriors == s.warriorCount && len(result) == nWarriors && fresh(arr(result)) && off(result) == 0
+//@     invariant 0 - 1 <= rangeindex && rangeindex < len(s.warriors)
+//@     invariant forall j :: 0 <= j && j <= rangeindex ==> result[j] == (s.warriors[j].state == WarriorAlive)
+//@     decreases len(s.warriors) - rangeindex
